@@ -48,6 +48,49 @@ def expected_distances(prev="previousSegment", cur="currentSegment"):
     return ref_dist, q_dist, fwd, rev, ref_len, q_len
 
 
+def keyless_tuple_sorts(ck, rule):
+    """decorate-sort-undecorate without a key function: sorted([(k, segment), ...]) compares the segments themselves whenever two
+    keys are equal - AlignmentSegment defines no order, so chain() raises TypeError for two segments with equal ordering keys (the
+    same labels seen from two neighbouring peaks)."""
+    p = ck.ctx.p
+    ck.clause(rule, "the chainer never sorts (key, segment) tuples without a key function: on a tie of the keys Python compares the "
+                    "segments, which have no order - TypeError, the run of that molecule (and with it the whole run) ends")
+    cls = p.find_class("SegmentChainer")
+    seg = p.find_class("AlignmentSegment")
+    ordered = seg is not None and any(m in seg.methods for m in ("__lt__", "__gt__", "__le__", "__ge__"))
+    n = 0
+    for f in cls.methods.values():
+        tuple_lists = set()
+        for x in ast.walk(f.node):
+            if isinstance(x, ast.Call) and isinstance(x.func, ast.Attribute) and x.func.attr == "append" and isinstance(x.func.value, ast.Name) \
+                    and x.args and isinstance(x.args[0], ast.Tuple) and len(x.args[0].elts) >= 2:
+                tuple_lists.add(x.func.value.id)
+            if isinstance(x, ast.Assign) and len(x.targets) == 1 and isinstance(x.targets[0], ast.Name) and \
+                    isinstance(x.value, (ast.ListComp, ast.GeneratorExp)) and isinstance(x.value.elt, ast.Tuple) and len(x.value.elt.elts) >= 2:
+                tuple_lists.add(x.targets[0].id)
+        for x in ast.walk(f.node):
+            is_sorted = isinstance(x, ast.Call) and isinstance(x.func, ast.Name) and x.func.id == "sorted" and x.args
+            is_sort = isinstance(x, ast.Call) and isinstance(x.func, ast.Attribute) and x.func.attr == "sort" and isinstance(x.func.value, ast.Name)
+            if not (is_sorted or is_sort):
+                continue
+            n += 1
+            if any(k.arg == "key" for k in x.keywords):
+                continue
+            subject = x.args[0] if is_sorted else x.func.value
+            tuples = (isinstance(subject, ast.Name) and subject.id in tuple_lists) or (
+                isinstance(subject, (ast.ListComp, ast.GeneratorExp)) and isinstance(subject.elt, ast.Tuple) and len(subject.elt.elts) >= 2) or (
+                isinstance(subject, ast.Call) and isinstance(subject.func, ast.Name) and subject.func.id == "zip")
+            if tuples and not ordered:
+                ck.violation(rule, f"{short(f)}:keyless-sort", where(f, x),
+                             "(key, segment) tuples are sorted without a key function: two segments with equal keys are compared with each "
+                             "other and AlignmentSegment has no order - TypeError in chain() (two segments over the same labels from "
+                             "neighbouring peaks tie on start.ref + end.ref + start.query + end.query)",
+                             found=ast.unparse(x)[:100], required="sorted(..., key=lambda pair: pair[0]) (stable: ties keep their order)")
+    ck.floor(rule + " sorts in the chainer", n, 1)
+    if not any(o.rule == rule and o.status == "VIOLATION" for o in ck.obligations):
+        ck.ok(rule, "SegmentChainer:sorts", cls.where, f"{n} sort(s): every sort of compound elements names its key")
+
+
 def run(ck):
     ck.clause("C14.1", "join score is non-positive and exactly 0 for a contiguous join")
     ck.clause("C14.2", "-inf exactly when a neighbour overlaps by more than half the shorter extent (either axis)")
@@ -55,6 +98,8 @@ def run(ck):
     ck.clause("C14.4", "DP bookkeeping: finite init, strict improvement, proper prefix, own score once, empty pass-through")
     ck.clause("C14.5", "the join score depends on the two segments and the configuration only (no remembered state, no id())")
     join_score(ck)
+    if ck.wants("C14.10"):
+        keyless_tuple_sorts(ck, "C14.10")
     dp(ck)
     ck.clause("C14.8", "the chainer the program runs with is built from the options that configure it: --segmentJoinMultiplier as the "
                        "multiplier, --sequentialityScore as the variant (as C04.1)")
